@@ -10,7 +10,7 @@ def components():
 
 
 def oracles_():
-    return [comps.XmlEscStd(), oracles.StdReaders(), comps_doc.WellFormedX(), comps_doc.QNamesX()]
+    return [comps.XmlEscStd(), oracles.StdReaders(), comps_doc.WellFormedX(), comps_doc.QNamesX(), comps_doc.SingleNodeX()]
 
 
 MANIFEST = {
@@ -49,7 +49,9 @@ MANIFEST = {
             "or three modules legally share ONE prefix) expat with namespace processing reads libyang's XML and every prefix "
             "inside a value (identityref, instance-identifier, xpath1.0, unions) and every metadata attribute must stand for "
             "the namespace it stands for in the input document; Python json reads the JSON and identityref values must name "
-            "the right module. Fixed: xml-value-ns-redeclared (a prefix defined twice in one start tag; e9b7253). Listed: "
+            "the right module. SingleNodeX: every node of trees with runs of list / leaf-list / opaque instances printed ALONE and with "
+            "siblings from the middle of a run (JSON, XML): python json / expat must read it and a top-level node must parse "
+            "back to itself (the former finding print-json-single-list-instance-open-array is fixed by 6dea40e). Fixed: xml-value-ns-redeclared (a prefix defined twice in one start tag; e9b7253). Listed: "
             "xml-same-prefix-value-clash (values are printed with the modules' own prefixes; open).",
     "note": "Modelled C: lyxml_dump_text, json_print_string (+ lexers), xml_print_data and json_print_data on the Tree subset "
             "(one data module, shrink mode, no anydata / opaque nodes / unions / tagged with-defaults modes). Outside that subset the "
